@@ -4,6 +4,7 @@ CONSTANTS
   Bodies <- BodiesTwice
   Modes <- AnsiPlain
   ValueChoices <- DefaultValues
+  Ends <- OneEnd
   Seconds <- SecondsH
   TickMs <- Ticks1
   MaxTicks = 1
